@@ -273,7 +273,7 @@ func init() {
 			return s
 		},
 		Run:  c12Run,
-		Rule: "signatures built with reflect.FuncOf/MakeFunc (each is a recording helper): 0..2 (3 thorough) fixed parameters over {string,int,interface{},*struct,*other-struct} x tail {none, map[string]interface{}, hctx.Map, plush.HelperContext, hctx.HelperContext, an application-defined interface with the same method set, map+context in all typings, ...int, ...string, ...interface{}} x result shapes {(), (T), (T,nil), (T,err), (nil error), (error)}; calls with every argument list of length 0..3 (4 thorough) over {nil, \"s\", 1, hash literal, array literal, true, typed nil pointer and non-nil pointer from the context}, each argument wrapped in a logging identity helper, with and without a block. Reference binder: too many / non-assignable => error naming the callee, function not invoked; otherwise invoked exactly once with every supplied value unchanged (nil => zero value of the parameter type, also in the variadic tail), omitted trailing map => non-nil empty map, omitted helper context => context whose HasBlock()/Block() reflect the call's block; argument log duplicate-free, in source order (a prefix when binding fails); first result is the value, non-nil trailing error fails the render. Omitted ordinary parameters are unspecified (either error or zero-fill accepted, supplied positions still checked). Non-trivial: at least one argument or an auto-supplied parameter.",
+		Rule: "signatures built with reflect.FuncOf/MakeFunc (each is a recording helper): 0..2 (3 thorough) fixed parameters over {string,int,interface{},*struct,*other-struct} x tail {none, map[string]interface{}, hctx.Map, plush.HelperContext, hctx.HelperContext, an application-defined interface with the same method set, map+context in all typings, ...int, ...string, ...interface{}} x result shapes {(), (T), (T,nil), (T,err), (nil error), (error)}; calls with every argument list of length 0..3 (4 thorough) over {nil, \"s\", 1, hash literal, array literal, true, typed nil pointer and non-nil pointer from the context}, each argument wrapped in a logging identity helper, without a block, with a block and with an empty block, after an earlier completed helper call with more arguments. Reference binder: too many / non-assignable => error naming the callee, function not invoked; otherwise invoked exactly once with every supplied value unchanged (nil => zero value of the parameter type, also in the variadic tail), omitted trailing map => non-nil empty map, omitted helper context => context whose HasBlock()/Block() reflect the call's block; argument log duplicate-free, in source order (a prefix when binding fails); first result is the value, non-nil trailing error fails the render. Omitted ordinary parameters are unspecified (either error or zero-fill accepted, supplied positions still checked). Non-trivial: at least one argument or an auto-supplied parameter.",
 		Bound: func(th bool) string {
 			if th {
 				return "<=3 fixed parameters, <=4 arguments"
@@ -327,22 +327,29 @@ func c12Run(t *engine.T, shard string) {
 		}
 		sig := "func(" + strings.Join(pn, ", ") + ") " + result
 		for _, args := range argLists {
-			for _, block := range []bool{false, true} {
+			for _, block := range []string{"", "BLK", "empty"} {
 				c12One(t, sig, params, tail.variadic, result, args, block)
 			}
 		}
 	}
 }
 
-func c12One(t *engine.T, sig string, params []c12Param, variadic reflect.Type, result string, args []c12Arg, block bool) {
+func c12One(t *engine.T, sig string, params []c12Param, variadic reflect.Type, result string, args []c12Arg, blockKind string) {
+	block := blockKind != ""
+	blockText := ""
+	if blockKind == "BLK" {
+		blockText = "BLK"
+	}
 	var as []string
 	for i, a := range args {
 		as = append(as, fmt.Sprintf("w(%d, %s)", i, a.src))
 	}
 	call := "helperUnderTest(" + strings.Join(as, ", ") + ")"
-	src := "A<%= " + call + " %>B"
+	// an earlier, completed helper call with many arguments (evaluator scratch state must not leak into the call under test)
+	warm := `<% warm(1, 2, 3, 4, 5, warm(6)) %>`
+	src := warm + "A<%= " + call + " %>B"
 	if block {
-		src = "A<%= " + call + " { %>BLK<% } %>B"
+		src = warm + "A<%= " + call + " { %>" + blockText + "<% } %>B"
 	}
 	ex := c12Bind(params, variadic, args)
 	nt := len(args) > 0 || ex.autoCtx+ex.autoMap > 0
@@ -352,6 +359,7 @@ func c12One(t *engine.T, sig string, params []c12Param, variadic reflect.Type, r
 		ctx := plush.NewContext()
 		ctx.Set("helperUnderTest", c12MakeFunc(params, variadic, result, rec))
 		ctx.Set("w", func(i int, v interface{}) interface{} { log = append(log, i); return v })
+		ctx.Set("warm", func(a ...interface{}) string { return "" })
 		ctx.Set("np", (*Person)(nil))
 		ctx.Set("pp", c12Person)
 		out, err := Render(src, ctx)
@@ -445,8 +453,8 @@ func c12One(t *engine.T, sig string, params []c12Param, variadic reflect.Type, r
 				if hb[i] != block {
 					return "", engine.Failf("auto-ctx", "helper context HasBlock()=%v but block present=%v", hb[i], block)
 				}
-				if block && bl[i] != "BLK" {
-					return "", engine.Failf("auto-ctx", "helper context Block() rendered %q, expected \"BLK\"", bl[i])
+				if block && bl[i] != blockText {
+					return "", engine.Failf("auto-ctx", "helper context Block() rendered %q, expected %q", bl[i], blockText)
 				}
 			}
 		}
